@@ -250,6 +250,15 @@ func runC08(r *Run) {
 			if len(fm) == 0 {
 				return c08Probe()
 			}
+			// the block as editors write it: LF or CRLF line ends, blanks after the closing fence
+			switch c % 5 {
+			case 1:
+				return "---\r\n" + strings.ReplaceAll(c08Yaml(fm), "\n", "\r\n") + "---\r\n" + c08Probe()
+			case 2:
+				return "---\n" + c08Yaml(fm) + "--- \n" + c08Probe()
+			case 3:
+				return "--- \n" + c08Yaml(fm) + "---\t\n" + c08Probe()
+			}
 			return "---\n" + c08Yaml(fm) + "---\n" + c08Probe()
 		}
 		mfs["page1.vuego"] = &fstest.MapFile{Data: []byte(page(fm1))}
